@@ -449,6 +449,7 @@ func (st *pkgState) run(baseline map[string]bool) {
 		}
 	}
 	st.etaExpandMethodValues(all)
+	st.hoistSwitchInits(all)
 	// static calls among candidates (for bottom-up order and recursion)
 	for _, fi := range st.cand {
 		ast.Inspect(fi.decl.Body, func(n ast.Node) bool {
@@ -954,6 +955,138 @@ func topLevelDefers(fd *ast.FuncDecl) map[*ast.DeferStmt]bool {
 	return out
 }
 
+// hoistSwitchInits rewrites `switch init; tag { … }` (and the type-switch
+// form) whose init statement calls a helper, and `if init; cond` whose cond does, into `{ init; switch tag { … } }`:
+// the same scopes and evaluation order, but the init is now an ordinary
+// statement that the expansion can work on. Labelled switches are left alone
+// (a `break L` needs the label on the switch itself).
+func (st *pkgState) hoistSwitchInits(all []*funcInfo) {
+	for _, fi := range all {
+		labelled := map[ast.Stmt]bool{}
+		ast.Inspect(fi.decl.Body, func(n ast.Node) bool {
+			if l, ok := n.(*ast.LabeledStmt); ok {
+				labelled[l.Stmt] = true
+			}
+			return true
+		})
+		hasHelperCall := func(n ast.Node) bool {
+			found := false
+			ast.Inspect(n, func(m ast.Node) bool {
+				if c, ok := m.(*ast.CallExpr); ok {
+					if callee := st.staticCallee(c); callee != nil && st.cand[callee] != nil {
+						found = true
+					}
+				}
+				return true
+			})
+			return found
+		}
+		astutil.Apply(fi.decl.Body, nil, func(c *astutil.Cursor) bool {
+			switch x := c.Node().(type) {
+			case *ast.SwitchStmt:
+				if x.Init != nil && !labelled[x] && hasHelperCall(x.Init) {
+					init := x.Init
+					x.Init = nil
+					c.Replace(&ast.BlockStmt{Lbrace: x.Pos(), List: []ast.Stmt{init, x}, Rbrace: x.End()})
+					st.changed = true
+				}
+			case *ast.IfStmt:
+				// `if init; cond` with a helper call in cond: `{ init; if cond … }`
+				if x.Init != nil && !labelled[x] && hasHelperCall(x.Cond) {
+					if _, isElseIf := c.Parent().(*ast.IfStmt); isElseIf && c.Name() == "Else" {
+						return true // an else-if arm: wrapping it in a block is fine for the grammar
+					}
+					init := x.Init
+					x.Init = nil
+					c.Replace(&ast.BlockStmt{Lbrace: x.Pos(), List: []ast.Stmt{init, x}, Rbrace: x.End()})
+					st.changed = true
+				}
+			case *ast.TypeSwitchStmt:
+				if x.Init != nil && !labelled[x] && hasHelperCall(x.Init) {
+					init := x.Init
+					x.Init = nil
+					c.Replace(&ast.BlockStmt{Lbrace: x.Pos(), List: []ast.Stmt{init, x}, Rbrace: x.End()})
+					st.changed = true
+				}
+			}
+			return true
+		})
+	}
+}
+
+// neverReassigned: within body the variable is given its value once (its
+// defining statement) and is not written afterwards — no other assignment to
+// it, no ++/--, no address taken, no write to one of its fields or array
+// elements. Writes to the elements of a slice or map variable do not count:
+// the copy bound by a method value shares them.
+func (st *pkgState) neverReassigned(body *ast.BlockStmt, v *types.Var) bool {
+	ok := true
+	root := func(e ast.Expr) (*ast.Ident, bool) {
+		direct := true
+		for {
+			switch x := e.(type) {
+			case *ast.ParenExpr:
+				e = x.X
+			case *ast.IndexExpr:
+				e, direct = x.X, false
+			case *ast.SelectorExpr:
+				e, direct = x.X, false
+			case *ast.StarExpr:
+				e, direct = x.X, false
+			case *ast.Ident:
+				return x, direct
+			default:
+				return nil, false
+			}
+		}
+	}
+	sharedElems := false
+	switch v.Type().Underlying().(type) {
+	case *types.Slice, *types.Map, *types.Pointer:
+		sharedElems = true
+	}
+	written := func(lhs ast.Expr, define bool) {
+		id, direct := root(lhs)
+		if id == nil || st.useOf(id) != types.Object(v) && st.defOf(id) != types.Object(v) {
+			return
+		}
+		if direct {
+			if !(define && st.defOf(id) == types.Object(v)) {
+				ok = false
+			}
+			return
+		}
+		if !sharedElems {
+			ok = false
+		}
+	}
+	ast.Inspect(body, func(n ast.Node) bool {
+		switch x := n.(type) {
+		case *ast.AssignStmt:
+			for _, l := range x.Lhs {
+				written(l, x.Tok == token.DEFINE)
+			}
+		case *ast.IncDecStmt:
+			written(x.X, false)
+		case *ast.RangeStmt:
+			if x.Key != nil {
+				written(x.Key, x.Tok == token.DEFINE)
+			}
+			if x.Value != nil {
+				written(x.Value, x.Tok == token.DEFINE)
+			}
+		case *ast.UnaryExpr:
+			if x.Op == token.AND {
+				if id, _ := root(x.X); id != nil && st.useOf(id) == types.Object(v) {
+					ok = false
+				}
+			}
+		}
+		return true
+	})
+	return ok
+}
+
 // etaExpandMethodValues rewrites a method value `x.m` of a helper method (not
 // in the baseline inventory) with a pointer receiver, where x is a local
 // variable or parameter, into `func(p...) R { return x.m(p...) }`. With a
@@ -991,14 +1124,18 @@ func (st *pkgState) etaExpandMethodValues(all []*funcInfo) {
 				return true
 			}
 			sig := fn.Type().(*types.Signature)
-			if _, ptr := sig.Recv().Type().(*types.Pointer); !ptr {
-				return true
-			}
+			_, ptrRecv := sig.Recv().Type().(*types.Pointer)
 			x, ok := se.X.(*ast.Ident)
 			if !ok {
 				return true
 			}
-			if v, ok := st.useOf(x).(*types.Var); !ok || v.IsField() || v.Parent() == st.pkg.Types.Scope() {
+			xv, ok := st.useOf(x).(*types.Var)
+			if !ok || xv.IsField() || xv.Parent() == st.pkg.Types.Scope() {
+				return true
+			}
+			if !ptrRecv && !st.neverReassigned(fi.decl.Body, xv) {
+				// a value receiver is copied when the method value is taken: the literal reads the
+				// variable when called, which is the same only if the variable is not written in between
 				return true
 			}
 			// the signature is spelled with the method declaration's own type expressions: they must mean
